@@ -8,7 +8,8 @@ import viewgen
 import vlib
 
 PID = "C05"
-THEOREMS = []
+THEOREMS = ["C05_create_faithful", "C05_update_faithful", "C05_faithful_dom", "C05_fresh_render_last", "C05_fresh_render_every_step", "C05_update_ids",
+            "C05_run_ids", "C05_run_dom_nodup", "C05_nonstructural_write", "C05_string_write_is_nonstructural", "C05_stable_nodes_survive"]
 
 
 def gen_ops(rng, st, n):
@@ -307,7 +308,7 @@ def gen(tier, rng):
 
 def main(argv):
     a, seed = vlib.args(argv)
-    chk = vlib.Check(PID, a.tier, seed, "other")
+    chk = vlib.Check(PID, a.tier, seed, "proof")
     rng = random.Random(seed * 1009 + 5)
     chk.trusted = ["the in-process DOM harness/dom/shims/web-sys standing in for a browser", "tools/domgen.py (generated crate root, client polarity)",
                    "harness/dom/dom-driver + harness/common/viewspec.rs", "tools/viewgen.py, tools/c05.py (generators, reference structure for the identity check)"]
@@ -317,8 +318,8 @@ def main(argv):
                 "None, booleans, list permutations / insertions / removals / clears); after the initial render and after every write the DOM under the mount "
                 "point is compared with a fresh client render of the current state made by the real code in a second root, and node identity outside the "
                 "changed regions is compared before / after; non-trivial = some write changed the serialised DOM; distinct = distinct (state, view, ops)")
-    chk.cov["explanation"] = ("differential check of the real client back end against itself (in-place update vs fresh render) plus an identity oracle; "
-                              "no Coq theorem is claimed for this property yet")
+    chk.cov["explanation"] = ("Coq theorems on the instance-tree model Dom/Client.v (update = fresh render for every write sequence, identities) + correspondence of the model with the real client back end + differential check of the real code against itself (in-place update vs fresh render) with an identity oracle")
+    okp, msgp = vlib.proof_step(chk, "C05", ["theories/Props/C05.vo", "theories/Dom/ClientShow.vo"], THEOREMS)
     binp = domlib.build(chk)
     if not binp:
         chk.violation({"property": PID, "broken": "harness build"}, no_input=True)
@@ -372,10 +373,10 @@ def main(argv):
     if orfail:
         orfail.sort(key=lambda o: len(o.get("scenario", "")))
         chk.violation({"property": PID, "kind": "oracle failure on implementation output", "input": orfail[0], "count": len(orfail)})
-    elif mism or model is None:
+    elif mism or model is None or not okp:
         mism.sort(key=lambda o: len(o.get("scenario", "")))
         chk.violation({"property": PID, "kind": "proof/correspondence broken, oracle clean on all inputs explored",
-                       "mismatches": mism[:3], "mismatch_count": len(mism)}, no_input=True)
+                       "mismatches": mism[:3], "mismatch_count": len(mism), "theorems": "" if okp else msgp}, no_input=True)
     return chk.finish()
 
 
